@@ -462,24 +462,66 @@ Proof.
   destruct (i63 <=? off); [discriminate|]. destruct (blen file <? off + len); discriminate.
 Qed.
 
-(* opening an archive panics only through an allocation sized by a footer count of at least 2^28 entries *)
-Theorem archive_open_panic_only_alloc : forall file,
-  open_archive file = Panic ->
-  exists f, load_footer file = Ok f /\ (268435456 <= af_nspans f + 1 \/ 268435456 <= af_chunks f).
+(* opening an archive never panics, whatever the bytes (e8df418: the footer's counts are tied to
+   the index size and to the file size before anything is sized from them) *)
+Theorem no_panic_archive_open : forall file, open_archive file <> Panic.
 Proof.
   intros file. unfold open_archive.
   destruct (load_footer file) as [f| |] eqn:Ef; cbn [bind]; try discriminate.
-  - intro H. exists f. split; [reflexivity|]. revert H. unfold alloc_crash.
-    repeat match goal with
-    | |- context [if ?c <=? ?x then _ else _] => destruct (c <=? x) eqn:?; [intros _; lia|]
+  - repeat match goal with
     | |- context [bind (read_section ?a ?b ?c) _] =>
       let R := fresh "R" in destruct (read_section a b c) eqn:R; cbn [bind];
       [ | discriminate | exfalso; exact (read_section_np _ _ _ R)]
     end.
     discriminate.
   - unfold load_footer in Ef. destruct (blen file <? 220) in Ef; [discriminate|].
-    destruct (negb _) in Ef; [discriminate|]. destruct (3 <? _) in Ef; discriminate.
+    destruct (negb (beq_bytes _ _)) in Ef; [discriminate|]. destruct (3 <? _) in Ef; [discriminate|].
+    destruct (_ || _) in Ef; discriminate.
 Qed.
+
+Lemma read_span_checked file a id sp : checked_span a id = Some sp -> read_span file sp <> GPanic.
+Proof.
+  unfold checked_span. destruct ((id =? 0) || _); [discriminate|].
+  destruct ((span_index a id <=? span_index a (id - 1)) || _) eqn:E; [discriminate|].
+  intro H. injection H as <-. unfold read_span.
+  apply orb_false_iff in E as [E1 E2].
+  destruct (span_index a id - span_index a (id - 1) =? 0) eqn:E0; [lia|].
+  destruct (_ || _); discriminate.
+Qed.
+
+(* get never panics: a dereferenced span is checked first, so the read is never empty *)
+Theorem no_panic_archive_get : forall crc file a h,
+  N.of_nat (length (ax_prefixes a)) < 4294967296 -> addr_prefix h < u64 -> Forall (fun x => x < u64) (ax_prefixes a) ->
+  aget crc file a h <> GPanic.
+Proof.
+  intros crc file a h H1 H2 H3. unfold aget.
+  pose proof (no_panic_archive_has a h H1 H2 H3) as Hh. unfold ahas in Hh.
+  destruct (afind a h) as [[idx|]| |]; try discriminate; [|exfalso; apply Hh; reflexivity].
+  destruct (nth (N.to_nat idx) (ax_refs a) (0, 0)) as [dict data].
+  destruct (negb (dict =? 0)).
+  - destruct (checked_span a dict) as [sp|] eqn:C; [|discriminate].
+    pose proof (read_span_checked file _ _ _ C) as R. destruct (read_span file sp); try discriminate. contradiction.
+  - destruct (checked_span a data) as [sp|] eqn:C; [|discriminate].
+    pose proof (read_span_checked file _ _ _ C) as R. destruct (read_span file sp) as [|buf| | |]; try discriminate; [|contradiction].
+    destruct (af_ver (ax_f a) <? 2); [discriminate|]. destruct (new_compressed_chunk crc buf); discriminate.
+Qed.
+
+Lemma aiter_loop_np crc fuel file a limit : forall counter pos acc, aiter_loop crc fuel file a limit counter pos acc <> IPanic.
+Proof.
+  induction fuel as [|f IH]; intros counter pos acc; cbn [aiter_loop]; [discriminate|].
+  destruct (af_nspans (ax_f a) <? counter); [discriminate|].
+  destruct (checked_span a counter) as [[st len]|]; [|discriminate].
+  destruct (_ <? len); [discriminate|].
+  destruct (existsb _ _); [discriminate|].
+  destruct (last_ref_with _ snd counter) as [cid|]; [|discriminate].
+  destruct (nth (N.to_nat cid) (ax_refs a) (0, 0)) as [dict d2].
+  destruct (negb (dict =? 0)); [discriminate|]. destruct (af_ver (ax_f a) <? 2); [discriminate|].
+  destruct (new_compressed_chunk crc _); [apply IH | discriminate | discriminate].
+Qed.
+
+(* the iteration never panics on any index and any file *)
+Theorem no_panic_archive_iterate : forall crc file a, aiterate crc file a <> IPanic.
+Proof. intros. unfold aiterate. apply aiter_loop_np. Qed.
 
 (* a 3-chunk archive written by the real ArchiveStreamWriter (snappy records; format version 3) *)
 Definition a_body : bytes :=
@@ -508,18 +550,21 @@ Proof.
   eexists. split; vm_compute; reflexivity.
 Qed.
 
-(* no_panic for the archive reader is FALSE: nothing in the index is validated and the footer's
-   index checksum is not verified on open *)
-Theorem no_panic_archive_refuted :
-  (exists file a h, open_archive file = Ok a /\ aget crc32c file a h = GPanic /\ aiterate crc32c file a = IPanic)
-  /\ (exists file a h, open_archive file = Ok a /\ aget crc32c file a h = GPanic)
-  /\ (exists file, open_archive file = Panic).
-Proof.
-  split; [|split].
-  - exists a_ref_oob. eexists. exists a_h1. split; [vm_compute; reflexivity|]. split; vm_compute; reflexivity.
-  - exists a_span_dec. eexists. exists a_h2. split; [vm_compute; reflexivity | vm_compute; reflexivity].
-  - exists (set_at a_file 172 [255; 255; 255; 255]). vm_compute. reflexivity.
-Qed.
+(* regression: the witnesses of the repaired archive findings are errors now *)
+Example regression_archive_chunk_ref :
+  exists a, open_archive a_ref_oob = Ok a /\ aget crc32c a_ref_oob a a_h1 = GErr /\ aiterate crc32c a_ref_oob a = IErr.
+Proof. eexists. split; [vm_compute; reflexivity|]. split; vm_compute; reflexivity. Qed.
+
+Example regression_archive_span_length :
+  exists a, open_archive a_span_dec = Ok a /\ aget crc32c a_span_dec a a_h2 = GErr /\ aiterate crc32c a_span_dec a = IErr.
+Proof. eexists. split; [vm_compute; reflexivity|]. split; vm_compute; reflexivity. Qed.
+
+Example regression_archive_footer_counts :
+  open_archive (set_at a_file 172 [255; 255; 255; 255]) = Err        (* byteSpanCount := 2^32-1 *)
+  /\ open_archive (set_at a_file 176 [0; 0; 0; 2]) = Err             (* chunkCount := 2 *)
+  /\ (exists a, open_archive (set_at a_file 376 [2]) = Ok a                 (* version 2: 216-byte footer, every section read *)
+                 /\ aiterate crc32c (set_at a_file 376 [2]) a = IErr).       (* 4 bytes off: spans fail their checks *)
+Proof. split; [|split]; [vm_compute; reflexivity | vm_compute; reflexivity |]. eexists. split; vm_compute; reflexivity. Qed.
 
 (* two chunk references exchanged in the index: both lookups succeed with each other's record *)
 Theorem archive_misread_refuted :
